@@ -137,6 +137,10 @@ def cli_args(sc, profile):
         a += ["--run-ignored", "only"]
     if sc["filter"]:
         a += [sc["filter"]]
+    if sc.get("no_capture"):
+        a += ["--no-capture"]
+        if sc["no_capture"] != "human":
+            a += ["--message-format", sc["no_capture"]]
     return a
 
 
@@ -217,7 +221,8 @@ def run(rig, sc, timeout=60):
             return t_run[0] is not None and time.monotonic() >= t_run[0] + sc["sigint_at"]
         sigs = [(trig, signal.SIGINT)]
     res = rig.run(puppet_scenario(sc), nextest_config(sc, profile), args=cli_args(sc, profile), signals=sigs,
-                  timeout=timeout)
+                  timeout=timeout,
+                  env_extra={"NEXTEST_EXPERIMENTAL_LIBTEST_JSON": "1"} if sc.get("no_capture") else None)
     res["profile"] = profile
     jp = os.path.join(e2e.PUPPET, "target", "nextest", profile, "junit.xml")
     res["junit_path"] = jp
@@ -444,7 +449,8 @@ def oracle_C08(sc, res):
     if w:
         return w
     iv = alive_intervals(sc, res)
-    threads = sc["threads"]
+    # with --no-capture at most one test runs at a time, whatever the configured thread count
+    threads = 1 if sc.get("no_capture") else sc["threads"]
     g = sc.get("groups")
     points = sorted({s for s, _, _, _ in iv})
     for p in points:
@@ -637,6 +643,15 @@ def directed(prop):
         out.append(dict(tests=tests2, retries=1, delay_ms=0, backoff="fixed", failfast="noff", threads=8, filter=None,
                         run_ignored="default", sigint_at=None, priorities=None,
                         groups=dict(name="g1", max_threads=1, members="_b", heavy="t01_b", heavy_weight=8)))
+    if prop == "C08":
+        # --no-capture serialises the run under every message format
+        for fmt in ("human", "libtest-json", "libtest-json-plus"):
+            tests3 = [dict(bin=b, name=f"t{i:02d}_c", ignored=False, attempts=[{"sleep": 0.2, "exit": 0}],
+                           expect=["pass"], mode="pass")
+                      for i, b in enumerate(["alpha::t1", "alpha::t2", "beta::t1", "beta::t2"])]
+            out.append(dict(tests=tests3, retries=0, delay_ms=0, backoff="fixed", failfast="noff", threads=4,
+                            filter=None, run_ignored="default", sigint_at=None, priorities=None, groups=None,
+                            no_capture=fmt))
     if prop in ("C10", "C07", "C02", "C01"):
         # an attempt that fails *after* the cancellation request has already reached its unit
         tests = [dict(bin="alpha::t1", name="t00_a", ignored=False, attempts=[{"sleep": 0.1, "exit": 1}],
